@@ -319,7 +319,10 @@ class Check:
 
     def violation(self, summary, replay, no_failing_input=False, tag="v"):
         """Records a violation; `replay` is a JSON-able dict (input, seed, how to re-run, expected, observed)."""
-        if len(self.violations) >= 20:
+        # separate caps, so that a flood of model-vs-implementation disagreements (no failing input) can never
+        # crowd out a concrete failing input found later by the property's oracle
+        same = sum(1 for v in self.violations if v[2] == bool(no_failing_input))
+        if same >= (10 if no_failing_input else 20):
             return
         path = self.replay_path(tag)
         replay = dict(replay, property=self.pid, seed=self.seed, tier=self.tier, summary=summary,
@@ -371,7 +374,8 @@ class Check:
         os.makedirs(os.path.join(VERIF, "evidence"), exist_ok=True)
         json.dump(ev, open(os.path.join(VERIF, "evidence", "%s.json" % self.pid), "w"), indent=1, ensure_ascii=False,
                   default=str)
-        for path, summary, nofail in self.violations:
+        # concrete failing inputs first
+        for path, summary, nofail in sorted(self.violations, key=lambda v: v[2]):
             print("# %s" % summary.replace("\n", " ")[:300])
             print("VIOLATION property=%s replay=%s%s" % (self.pid, path, " no-failing-input-found" if nofail else ""))
         sys.stdout.flush()
@@ -427,13 +431,40 @@ def main_for(pid, run):
     ap.add_argument("--seed", type=int, default=int(os.environ.get("VERIF_SEED", "20240929")))
     ap.add_argument("--replay", default=None)
     a = ap.parse_args(sys.argv[2:])
+    replayed = None
+    if a.replay:
+        # generic replay: re-run the check with the seed and tier recorded in the replay file (all randomness derives
+        # from them, so the same case is generated again) and report whether the recorded violation reappears;
+        # C13 and C19 additionally re-run the single recorded case (their run() looks at chk.replay)
+        try:
+            replayed = json.load(open(a.replay))
+            a.seed = int(replayed.get("seed", a.seed))
+            a.tier = replayed.get("tier", a.tier)
+        except (OSError, ValueError) as e:
+            print("cannot read replay file %s: %s" % (a.replay, e))
+            sys.exit(2)
     chk = Check(pid, a.tier if a.tier in ("quick", "thorough") else "quick", a.seed)
     chk.replay = a.replay
+    if not a.replay:
+        # replay files of earlier runs of this check would be mistaken for this run's
+        import glob
+        for old in glob.glob(os.path.join(WORK, "replay", "%s-*.json" % pid)):
+            try:
+                os.remove(old)
+            except OSError:
+                pass
     try:
         run(chk)
     except BuildError as e:
         print("CHECK-ERROR: %s" % e)
         chk.violation("check machinery failed: %s" % str(e)[:300], {"error": str(e)}, no_failing_input=True, tag="err")
+    if replayed is not None:
+        want = str(replayed.get("summary", ""))[:120]
+        again = [v for v in chk.violations if v[1][:120] == want]
+        print("REPLAY %s: recorded violation %s (%s)" % (a.replay, "REPRODUCED" if again else "not reproduced on the current tree",
+                                                      want[:100]))
+        if replayed.get("rerun"):
+            print("REPLAY single-case command: %s" % replayed["rerun"])
     rc = chk.finish()
     print("%s %s: %d evaluations, %d distinct non-trivial, %d/%d obligations, %d violations, %d known findings, %.1fs"
           % (pid, chk.tier, chk.evaluations, len(chk.nontrivial), chk.discharged, chk.obligations, len(chk.violations),
